@@ -60,7 +60,9 @@ type c12Form struct {
 // behaves as if the output path were empty).
 // "out-noext": an -out name without the .go extension (the tool writes exactly where it is told).
 // "with-log": -log (a log file next to the output): whatever the run logs, the old output is not an input.
-var c12Forms = []c12Form{{"pkgdir-rel"}, {"modroot-rel"}, {"out-flag"}, {"abs"}, {"via-symlink"}, {"out-otherdir"}, {"dry-print"}, {"out-noext"}, {"with-log"}}
+// "gofile": no argument, the input comes from $GOFILE as under go generate (the file put at the output path is
+// always newer than every source file: "up to date" is no reason to leave it alone).
+var c12Forms = []c12Form{{"pkgdir-rel"}, {"modroot-rel"}, {"out-flag"}, {"abs"}, {"via-symlink"}, {"out-otherdir"}, {"dry-print"}, {"out-noext"}, {"with-log"}, {"gofile"}}
 
 const c12OutFlagName = "aa_conv.gen.go" // sorts before every generated sibling name
 
@@ -83,6 +85,8 @@ func (f c12Form) spec(root string, sc *c12Scen) (args []string, dir, out string)
 		return []string{"-dry", "-print", filepath.Base(sc.SetupRel)}, filepath.Join(root, sc.PkgRel), defOut
 	case "with-log":
 		return []string{"-log", filepath.Base(sc.SetupRel)}, filepath.Join(root, sc.PkgRel), defOut
+	case "gofile":
+		return nil, filepath.Join(root, sc.PkgRel), defOut
 	case "out-otherdir":
 		return []string{"-out", "../c12out/conv.gen.go", filepath.Base(sc.SetupRel)}, filepath.Join(root, sc.PkgRel), filepath.Join(root, "c12out", "conv.gen.go")
 	}
@@ -196,6 +200,14 @@ func c12HandScenarios() []*c12Scen {
 	himp4.Files["himp4/dep/setup.gen.go"] = "// Code generated by github.com/reedom/convergen\n// DO NOT EDIT.\n\npackage dep\n\nfunc ConvCode(v int) string { return \"code\" }\n"
 	himp4.Files["himp4/dep/aa_conv.gen.go"] = "package dep\n\nfunc ConvOther(v int) string { return \"other\" }\n"
 	r = append(r, himp4)
+	// the setup file DOT-imports a package and names one of its functions without qualifier (:conv and a hook):
+	// such names live in the file scope of the setup file; a file at the output path must not shift or hide it
+	hdot := mk("hdot1",
+		"//go:build convergen\n\npackage sc\n\nimport . \"vb/hdot1/dep\"\n\nvar _ = DepMarker\n\ntype Convergen interface {\n\t// :conv DotCode Code Label\n\t// :postprocess DotAfter\n\tToDL(*SC) *DL\n}\n",
+		c12Version{"rename-method", "//go:build convergen\n\npackage sc\n\nimport . \"vb/hdot1/dep\"\n\nvar _ = DepMarker\n\ntype Convergen interface {\n\t// :conv DotCode Code Label\n\tToDLOld(*SC) *DL\n}\n"})
+	hdot.Files["hdot1/types.go"] = "package sc\n\ntype SC struct {\n\tCode int\n\tName string\n}\ntype DL struct {\n\tLabel string\n\tName  string\n}\n"
+	hdot.Files["hdot1/dep/dep.go"] = "package dep\n\nconst DepMarker = 1\n\nfunc DotCode(v int) string { return \"code\" }\n\nfunc DotAfter(d, s interface{}) {}\n"
+	r = append(r, hdot)
 	return r
 }
 
@@ -364,7 +376,11 @@ func c12Run(e *core.Env, root string, sc *c12Scen, form c12Form, pre *c12Pre) c1
 			_ = os.WriteFile(out, pre.Data, 0o644)
 		}
 	}
-	res := e.Run(core.RunSpec{Args: args, Dir: dir, WallSec: 120})
+	spec := core.RunSpec{Args: args, Dir: dir, WallSec: 120}
+	if form.Name == "gofile" {
+		spec.Env = []string{"GOFILE=" + filepath.Base(sc.SetupRel)}
+	}
+	res := e.Run(spec)
 	o := c12Obs{Res: res}
 	if form.Name == "dry-print" && res.Exit == 0 {
 		// the printed code stands for the output (the file at the output path is the pre-state, untouched -
